@@ -69,7 +69,21 @@ OverflowPort(s) ==
   LET cs == Positions(s, Colon) IN
   \E c \in cs : /\ cs = {c} /\ IsQuad(Piece(s, 1, c - 1))
                 /\ LET pt == Piece(s, c + 1, Len(s)) IN AllDigitsCP(pt) /\ NoLeadingZero(pt) /\ (Len(pt) > 5 \/ NumVal(pt) > 65535)
+\* a strict dotted quad, one colon, and a port text that is not plain decimal (a sign, a base prefix, an exponent, a
+\* blank, ...) - "port 0..65535 in plain decimal" and nothing else
+NonDecimalPort(s) ==
+  LET cs == Positions(s, Colon) IN
+  \E c \in cs : /\ cs = {c} /\ IsQuad(Piece(s, 1, c - 1))
+                /\ LET pt == Piece(s, c + 1, Len(s)) IN Len(pt) >= 1 /\ ~AllDigitsCP(pt)
+\* a strict dotted quad, one colon and decimal digits (leading zeros or not): whether such a text is accepted is left to
+\* the strict rules above, but IF it is accepted it denotes that address and the decimal value of the digits
+DecimalReading(s) ==
+  LET cs == Positions(s, Colon) IN
+  IF \E c \in cs : cs = {c} /\ IsQuad(Piece(s, 1, c - 1)) /\ AllDigitsCP(Piece(s, c + 1, Len(s))) /\ Len(s) - c <= 8
+    THEN [t |-> "ap", ip |-> SplitPort(s).ip, port |-> SplitPort(s).port]
+    ELSE [t |-> "none"]
 MustReject(role, s) == \/ OverflowPort(s)
+                       \/ NonDecimalPort(s)
                        \/ (Denotes(role, s).t = "ap" /\ ~PortAllowed(role, Denotes(role, s).port))
                        \/ (IsQuad(s) /\ role = "listen")                 \* the port is mandatory for listen
                        \/ ~ContainsQuadPattern(s)
